@@ -426,7 +426,8 @@ fn derive_half(tys: &[G], thorough: bool, t: &mut Tally) {
 }
 
 fn derive_half_one(tys: &[G], i: usize, thorough: bool, t: &mut Tally) {
-    let heads = ["<T, U, X>", "<'a, 'b, T: Clone + 'a, U, X = u8, const N: usize = 3>", "<T, U: ?Sized, X>"];
+    // the last head declares type parameters after a const parameter (syn accepts any order)
+    let heads = ["<T, U, X>", "<'a, 'b, T: Clone + 'a, U, X = u8, const N: usize = 3>", "<T, U: ?Sized, X>", "<'a, const N: usize, T, U, const M: usize, X>"];
     let wheres = ["", " where U: Copy, T: Into<U>"];
     {
         let a = &tys[i];
@@ -449,7 +450,7 @@ fn derive_half_one(tys: &[G], i: usize, thorough: bool, t: &mut Tally) {
                     check_impl(&src_meta, used, 0, t);
                     let src_el = format!("#[darling(attributes(a))] struct R{head}{wh} {body}");
                     for d in 1..6 {
-                        if thorough || (d + i) % 5 == 0 {
+                        if thorough || (d + i) % 5 == 0 || skip == 0 {
                             check_impl(&src_el, used, d, t);
                         }
                     }
